@@ -75,10 +75,14 @@ func outgoingCase(r *rand.Rand, o *hout.Out) {
 		} else {
 			typedH = append(typedH, hreg{myID, verdict})
 		}
-		h.HandleOutgoing(tp, func(simplefixgo.SendingMessage) bool {
+		stamp := r.Intn(3) == 0 // a handler that completes the message (HandleOutgoing is where messages may be modified)
+		h.HandleOutgoing(tp, func(m simplefixgo.SendingMessage) bool {
 			mu.Lock()
 			log = append(log, myID)
 			mu.Unlock()
+			if mm, isMock := m.(*messages.MockMessage); isMock && stamp {
+				mm.Data = append(append([]byte{}, mm.Data...), []byte(fmt.Sprintf("58=h%d\x01", myID))...)
+			}
 			return verdict
 		})
 	}
@@ -106,13 +110,16 @@ func outgoingCase(r *rand.Rand, o *hout.Out) {
 		mu.Lock()
 		log = nil
 		mu.Unlock()
-		err := h.Send(messages.NewMockMessage("X", data, terr))
+		msg := messages.NewMockMessage("X", data, terr)
+		err := h.Send(msg)
 		enq := "0"
 		select {
 		case got := <-h.Outgoing():
 			enq = "1"
-			if !bytes.Equal(got, data) {
-				o.Fail("C19", "transmitted-bytes-differ", fmt.Sprintf("%q", got))
+			// what was transmitted is the message as the last handler left it: every handler saw (and could complete) the
+			// message that goes out
+			if !bytes.Equal(got, msg.Data) {
+				o.Fail("C19", "transmitted-bytes-differ", fmt.Sprintf("round %d: transmitted %q, the message after its outgoing handlers is %q; all=%s typed=%s", round, got, msg.Data, hs(allH), hs(typedH)))
 			}
 		default:
 		}
